@@ -192,7 +192,7 @@ PROPS["C20"] = dict(
     level="exploration",
     engine="E1",
     parts=[dict(bin="e1_lenders")],
-    rule="case = (lender kind: LineLender over Cursor / File, Zstd- and GzipLineLender over Cursor / File (opened by path and from an open File), Take(n) or none, input text); inside each case ALL histories of <= 3 rounds (consume c items, rewind), c in {0,1,L-1,L,L+1 (reads past the end)}, followed by a full pass; texts: ALL texts of <= 3 (thorough 4) lines over {\"\", a, bc, a 9000-byte line (> BufReader capacity), d+CR, a lone CR} x {LF, CRLF} x final terminator present/absent; texts with one very long line (8191..65537, 70000, 131073 bytes; thorough 1 MiB; ASCII and two-byte characters); one 4000-line ~300 KiB text for multi-block compressed streams; streams of 2-3 concatenated zstd frames / gzip members over 6 pieces (including empty ones) and two of 150 KiB each, with the first pass of a fresh lender as reference; FromIntoIterator over ranges and Vec<String> of 0..=4 items; Take(n) for n in {0,1,L-1,L,L+1}; non-trivial = at least 2 items",
+    rule="case = (lender kind: LineLender over Cursor / File, Zstd- and GzipLineLender over Cursor / File (opened by path and from an open File), Take(n) or none, input text); inside each case ALL histories of <= 3 rounds (consume c items, rewind), c in {0,1,L-1,L,L+1 (reads past the end)}, followed by a full pass; texts: ALL texts of <= 3 (thorough 4) lines over {\"\", a, bc, a 9000-byte line (> BufReader capacity), d+CR, a lone CR} x {LF, CRLF} x final terminator present/absent; inputs with lines that are not valid UTF-8 (lent as error items); texts with one very long line (8191..65537, 70000, 131073 bytes; thorough 1 MiB; ASCII and two-byte characters); one 4000-line ~300 KiB text for multi-block compressed streams; streams of 2-3 concatenated zstd frames / gzip members over 6 pieces (including empty ones) and two of 150 KiB each, with the first pass of a fresh lender as reference; FromIntoIterator over ranges and Vec<String> of 0..=4 items; Take(n) for n in {0,1,L-1,L,L+1}; non-trivial = at least 2 items",
     alphabet="LineLender over Cursor and over a real file, ZstdLineLender, GzipLineLender, FromIntoIterator, lender::Take of each",
     bound={"quick": "texts of <= 3 lines, 3 rounds", "thorough": "texts of <= 4 lines, 3 rounds"},
     oracle="after every history a full pass yields exactly the reference lines (reference splitter applied to the text itself: split on LF, one CR immediately before the LF removed, final unterminated non-empty piece kept as is - a lone CR is not a terminator), each Ok; items consumed before a rewind are also compared",
